@@ -793,6 +793,11 @@ func (x *Exec) specCall(e *ast.CallExpr, sc *SpecScope, st *State) *Value {
 		}
 		et := types.Unalias(v.T).Underlying().(*types.Slice).Elem()
 		return &Value{Tm: x.sliceContents(st, v.Tm, x.sortOf(et), et)}
+	case "byteheap":
+		// byteheap(): the whole heap of byte-slice backing arrays (array reference -> contents)
+		bt := types.Typ[types.Uint8]
+		k, ks := x.elemKey(x.sortOf(bt), bt)
+		return &Value{Tm: st.hget(k, ks)}
 	case "first":
 		// first(x): the value local x received at its declaration
 		id, ok := e.Args[0].(*ast.Ident)
